@@ -51,6 +51,8 @@ Proof.
   induction pre as [|x pre IH]; cbn; [done|]. intros [H1 H2]%andb_true_iff Hr. rewrite IH by done.
   by destruct x.
 Qed.
+Lemma log_setf s f c : log (setf s f c) = log s. Proof. done. Qed.
+Lemma jobs_setf0 s f c : jobs (setf s f c) = jobs s. Proof. done. Qed.
 Lemma fut_poll_update s s' a old new :
   (forall c st, stacks s !! c = Some st -> pollall st = true) -> stacks s !! a = Some old -> stacks s' = <[a := new]> (stacks s) ->
   (pollall old = true -> pollall new = true) -> forall c st, stacks s' !! c = Some st -> pollall st = true.
@@ -109,7 +111,7 @@ Section Pres.
            unfold tot in *; (let n := fresh "cnt" in set (n := np (wf f) s') in *; clearbody n) end.
     all: cbn [cntf wf wj ret_ready ret_pending] in Hu; rewrite ?cntf_app, ?cntf_opt_wake, ?cntf_wake_frames in Hu by done; cbn [cntf wf wj ret_ready ret_pending] in Hu.
     all: try (match goal with E : jobs _ = _ :: _ |- _ => rewrite E in * end).
-    all: cbn -[cntj length getf setf "++" nres]; rewrite ?jobs_setf; cbn -[cntj length getf setf "++" nres]; rewrite ?cntj_app; cbn [cntj wj nres app] in *.
+    all: cbn -[cntj length getf setf "++" nres]; rewrite ?jobs_setf0, ?log_setf; cbn -[cntj length getf setf "++" nres]; rewrite ?cntj_app; cbn [cntj wj nres app] in *.
     all: repeat match goal with H : context [wj ?f ?j] |- _ => destruct (wj f j) end.
     (* clause 1 *)
     all: try (lazymatch goal with |- _ <= 1 => repeat case_bool_decide; simplify_eq; lia end).
